@@ -723,9 +723,43 @@ def r5_index(prog, rep: Report, fam: Family, rule: str = "C11.R5", only_binary: 
             if g.is_static and any(ext_name(prog, g, c) == "open" for c in calls_in(g.node)) \
                     and any(isinstance(c.func, ast.Name) and c.func.id == "int" for c in calls_in(g.node)):
                 rdr = g
+    _reader_reported = False
     if rdr is None:
+        # the reader by its use: the static method whose result the constructor stores in the offset table
+        for k in c0.repo_mro():
+            init_ = k.methods.get("__init__")
+            if init_ is None:
+                continue
+            for t_, v_, _st in iter_stores(init_.node):
+                if dotted(t_) == (init_.self_name, lines_field) and v_ is not None:
+                    for c_ in ast.walk(v_):
+                        if isinstance(c_, ast.Call) and isinstance(c_.func, ast.Attribute) and isinstance(c_.func.value, ast.Name) \
+                                and c_.func.value.id in (init_.self_name, k.name):
+                            g = prog.resolve(c0, c_.func.attr)
+                            if g is not None and g.is_static and any(ext_name(prog, g, c2) == "open" for c2 in calls_in(g.node)):
+                                rdr = g
+        if rdr is not None:
+            rep.fn(rdr)
+            texty = None
+            for r in returns_of(rdr.node):
+                v = r.value
+                if isinstance(v, ast.Call) and isinstance(v.func, ast.Attribute) and v.func.attr in ("split", "splitlines", "readlines"):
+                    texty = v
+                elif isinstance(v, ast.Call) and src(v.func) == "list" and len(v.args) == 1 and isinstance(v.args[0], ast.Name):
+                    texty = v
+            if texty is not None:
+                rep.viol(rule, rdr, "index-file-reader", f"the index-file reader returns `{src(texty)}`: the offsets stay strings; the "
+                         "mutable variants read a str entry of the table as an in-memory line, and len/slices work on text",
+                         scenario="MutableRandomLineAccessFile(path, index_file): f[0] == '0' (the offset text) instead of the first line",
+                         line=texty.lineno)
+            else:
+                rep.unrec(rule, rdr, "index-file-reader", "the index-file reader does not convert its lines with int(): what the table "
+                          "holds is not decided")
+            rdr = None
+            _reader_reported = True
+    if rdr is None and not _reader_reported:
         rep.unrec(rule, (c0.relpath, c0.short, 0), "index-file-reader", "static index-file reader not found")
-    else:
+    if rdr is not None:
         rep.fn(rdr)
         good = False
         from ..util import comprehension_of
